@@ -61,11 +61,11 @@ def run(eng, R):
           "asarray(self._bin_evaluation(self._bin_edges[1:], *self._model_parameters)) - asarray(self._bin_evaluation(self._bin_edges[:-1], *self._model_parameters))",
           what="antiderivative evaluation must be F(upper edges) - F(lower edges) at the current parameters")
     f = get_func(p, M, "_bin_evaluation_numerical")
-    src = " ".join(ast.unparse(f.node).split())
+    src = common.src_of(f.node)
     R.ob("H-geom", "%s._bin_evaluation_numerical" % M, "zip(self._bin_edges[:-1], self._bin_edges[1:])" in src and "integrate.quad(_integrand_func, _a, _b)" in src
          and "self.eval_model_function_density(x)" in src and "_int_val[_i], _ =" in src, (f.file, f.lineno), "numerical evaluation must integrate the density over each (lower, upper) edge pair")
     f = get_func(p, M, "eval_model_function_density")
-    src = " ".join(ast.unparse(f.node).split())
+    src = common.src_of(f.node)
     R.ob("H-geom", "%s.eval_model_function_density" % M, "model_parameters if model_parameters is not None else self._model_parameters" in src and "self._model_function_object(x, *_pars)" in src,
          (f.file, f.lineno), "the density must be evaluated at the given parameters, by default the model's current ones")
 
@@ -107,7 +107,7 @@ def run(eng, R):
         got[key] = Normalizer(env).norm(e).canon()
     ok = got.get("self._param_model.density") == "self._data_container.n_entries*self._param_model.data" and got.get("not self._param_model.density") == "self._param_model.data"
     R.ob("S-fit", "HistFit.model", ok, (hm.file, hm.lineno), "HistFit.model must be density integral x number of entries for a density, the bare bin contents otherwise (found %s)" % got)
-    src = " ".join(ast.unparse(hm.node).split())
+    src = common.src_of(hm.node)
     R.ob("S-fit", "HistFit.model:push", "self._param_model.parameters = self.parameter_values" in src, (hm.file, hm.lineno), "HistFit.model must push the current parameter values into the model before reading it")
     sp = get_func(p, "HistFit", "_set_new_parametric_model")
     g = eng.cfg(sp)
